@@ -71,6 +71,8 @@ def correspond(ctx):
         s_tok.add(f"totp dt {hx(dig)} {digits}", lambda t=t, tm=tm: t.generate(tm).token, "token")
         # independent RFC implementation as a third column (reported as a mismatch of the suite)
         s_tok.add(f"totp dt {hx(dig)} {digits}", lambda want=want: want, "rfc-reference")
+        # whole token through the Lean HMAC + SHA transcriptions (no Python digest in the loop)
+        s_tok.add(f"totp token {alg} {hx(key)} {digits} {tm // period}", lambda t=t, tm=tm: t.generate(tm).token, "whole-token")
         s_cnt.add(f"totp counter {tm} {period}", lambda t=t, tm=tm: (lambda g: f"{g.counter} {g.start_time} {g.expire_time}")(t.generate(tm)), "counter")
         s_cnt.add(f"totp pack64 {tm // period}", lambda tm=tm, period=period: hx(struct.pack(">Q", tm // period)), "pack64")
     # floats and date-times normalise to the same integer second
